@@ -214,7 +214,7 @@ static void part_e(Ctx& ctx, int which, int l2o, const CpuCfg& cfg) {
 
 // ---- F: every m through the dispatching API and the *_simple forms --------------------------------------
 static void part_f(Ctx& ctx, uint64_t m, const CpuCfg& cfg) {
-  std::string id = sfmt("dispatch|%s|m=%llu|all six conversions through new_*_precomp and *_simple", cfg.name, (unsigned long long)m);
+  std::string id = sfmt("dispatch|%s|m=%llu|all six conversions through new_*_precomp and *_simple, every log2bound / log2overhead value", cfg.name, (unsigned long long)m);
   if (!ctx.want(id)) return;
   ctx.begin_case(id);
   set_cfg(cfg);
@@ -232,20 +232,23 @@ static void part_f(Ctx& ctx, uint64_t m, const CpuCfg& cfg) {
     if (!x.guards_ok() || !r.guards_ok() || !r2.guards_ok()) ctx.violation(id, "write outside a declared extent (int32 -> complex)");
     free(p1); free(p2);
   }
-  // int64 -> double
-  {
+  // int64 -> double: every log2bound 0..50, values below 2^log2bound
+  for (uint32_t lb = 0; lb <= 50; ++lb) {
     GBuf x(n * 8, 8), r(n * 8, 16), r2(n * 8, 24);
-    for (uint64_t i = 0; i < n; ++i) { int64_t v = (int64_t)(rng.next() >> 14) - (INT64_C(1) << 49); if (i == 0) v = (INT64_C(1) << 50) - 1; if (i == 1) v = -((INT64_C(1) << 50) - 1); x.as<int64_t>()[i] = v; }
-    REIM_FROM_ZNX64_PRECOMP* p = new_reim_from_znx64_precomp(m, 50);
-    reim_from_znx64(p, r.p, x.as<int64_t>()); reim_from_znx64_simple(m, 50, r2.p, x.as<int64_t>());
-    for (uint64_t i = 0; i < n; ++i) if (r.as<double>()[i] != (double)x.as<int64_t>()[i] || r2.as<double>()[i] != (double)x.as<int64_t>()[i]) { ctx.violation(id, sfmt("reim_from_znx64 (precomp or simple) is not exact on %lld", (long long)x.as<int64_t>()[i])); break; }
+    const int64_t lim = INT64_C(1) << lb;
+    for (uint64_t i = 0; i < n; ++i) { int64_t v = lb ? (int64_t)(rng.next() % (uint64_t)(2 * lim - 1)) - (lim - 1) : 0; if (i == 0) v = lim - 1; if (i == 1) v = -(lim - 1); x.as<int64_t>()[i] = v; }
+    REIM_FROM_ZNX64_PRECOMP* p = new_reim_from_znx64_precomp(m, lb);
+    reim_from_znx64(p, r.p, x.as<int64_t>()); reim_from_znx64_simple(m, lb, r2.p, x.as<int64_t>());
+    for (uint64_t i = 0; i < n; ++i) if (r.as<double>()[i] != (double)x.as<int64_t>()[i] || r2.as<double>()[i] != (double)x.as<int64_t>()[i]) { ctx.violation(id, sfmt("reim_from_znx64 (precomp or simple, log2bound %u) is not exact on %lld", lb, (long long)x.as<int64_t>()[i])); break; }
     if (!x.guards_ok() || !r.guards_ok() || !r2.guards_ok()) ctx.violation(id, "write outside a declared extent (int64 -> double)");
     free(p);
   }
   // double -> int64, both bounds, two divisors
-  for (uint32_t lb : {50u, 63u}) for (int j : {0, 7}) {
-    const int lim = lb == 50 ? 50 : 52;
-    std::vector<double> Y = quotient_alphabet(lim, -3);
+  // double -> int64: EVERY log2bound 0..64 (the announced bound of |x/d|), two divisors; values inside min(2^log2bound, 2^52)
+  for (uint32_t lb = 0; lb <= 64; ++lb) for (int j : {0, 7}) {
+    const int lim = (int)std::min<uint32_t>(lb, 52);
+    std::vector<double> Y = quotient_alphabet(std::max(lim, 1), -3);
+    if (lim == 0) Y = {0.0, 0.25, -0.25, 0.5 - 0x1p-54, -(0.5 - 0x1p-54), 0.75, -0.75, 1.0 - 0x1p-53};
     GBuf x(n * 8, 8), r(n * 8, 16), r2(n * 8, 24);
     const double d = ldexp(1.0, j);
     REIM_TO_ZNX64_PRECOMP* p = new_reim_to_znx64_precomp(m, d, lb);
@@ -261,7 +264,7 @@ static void part_f(Ctx& ctx, uint64_t m, const CpuCfg& cfg) {
     free(p);
   }
   // complex -> torus32 (both dispatch branches of log2overhead)
-  for (uint32_t l2o : {0u, 18u, 19u, 52u}) {
+  for (uint32_t l2o = 0; l2o <= 52; ++l2o) {
     std::vector<double> Y = quotient_alphabet(18, -40);
     GBuf x(n * 8, 8), r(n * 4, 16), r2(n * 4, 24);
     const double d = 4.0;
